@@ -373,10 +373,10 @@ def run_tocsv(i, case, cnt, out):
     for with_scores in (False, True):
         ballots = []
         for k, (r, w) in enumerate(bl):
-            sc = {"A": F(1, 2), "C": 2} if (with_scores and k == 0) else None
+            sc = {cs[0]: F(1, 2), cs[2]: 2} if (with_scores and k == 0) else None
             ballots.append(vkit.mk_ballot(r, w, sc))
         if with_scores:
-            ballots.append(Ballot(scores={"B": 1}, weight=F(5, 2)))
+            ballots.append(Ballot(scores={cs[1]: 1}, weight=F(5, 2)))
         p = PreferenceProfile(ballots=tuple(ballots), candidates=cs)
         cnt["executions"] += 1
         try:
